@@ -1,13 +1,15 @@
 import Grexv.Lemmas.DefaultExact
+import Grexv.Lemmas.Presentation
 import Grexv.Lemmas.Sort
 
 /-
-S1 … S9 and matching composed for plain settings (`default_exact`).
+S1 … S9 and matching composed, for every combination of the six shorthand-class options and capturing groups
+(`classes_exact`); the default settings are the special case without class options (`default_exact`).
 -/
 set_option linter.unusedSimpArgs false
 set_option linter.unusedVariables false
 namespace Grexv
-open Dfa Expr
+open Dfa Expr Spec
 
 theorem sortCases_mem' (ws : List Str) (w : Str) : w ∈ sortCases ws ↔ w ∈ ws := by
   simp [sortCases, mem_sortBy, mem_dedupAdj]
@@ -15,33 +17,50 @@ theorem sortCases_mem' (ws : List Str) (w : Str) : w ∈ sortCases ws ↔ w ∈ 
 theorem accepts_iff_langFrom' (d : Dfa) (w : Word) : d.Accepts w ↔ d.LangFrom d.init w := by
   simp [Dfa.Accepts, Dfa.LangFrom, Dfa.isFinal, List.contains_iff_mem]
 
+/-- everything that changes the *text* of the pattern beyond the class options and capturing groups is off -/
+structure PlainPrint (cfg : Config) : Prop where
+  rep : cfg.rep = false
+  ci : cfg.ci = false
+  esc : cfg.esc = false
+  sur : cfg.sur = false
+  verb : cfg.verb = false
+  noStart : cfg.noStart = false
+  noEnd : cfg.noEnd = false
+  color : cfg.color = false
 
-theorem plainBs_flat_ne (w : Word) (h : PlainBs w) (hne : w ≠ []) : flat w ≠ [] := by
-  cases w with
-  | nil => exact absurd rfl hne
+theorem plainPrint_cfgPlain (cap : Bool) : PlainPrint (cfgPlain cap) := ⟨rfl, rfl, rfl, rfl, rfl, rfl, rfl, rfl⟩
+
+theorem fmtRegExp_plain_eq (cfg : Config) (h : PlainPrint cfg) (e : Expr) :
+    fmtRegExp cfg e = fmtRegExp (cfgPlain cfg.cap) e := by
+  have hb : bodyText cfg e = bodyText (cfgPlain cfg.cap) e :=
+    bodyText_congr (c1 := cfg) (c2 := cfgPlain cfg.cap) ⟨rfl, h.esc, h.sur, h.verb, h.color⟩ e
+  simp only [fmtRegExp, h.ci, h.verb, h.noStart, h.noEnd, h.color, cfgPlain, hb, Bool.and_false, Bool.false_eq_true,
+    ite_false]
+
+theorem plainBs_atoms_nil (c : Cluster) (h : PlainBs c) (ha : atomsOf c = []) : c = [] := by
+  cases c with
+  | nil => rfl
   | cons g gs =>
-    obtain ⟨s, hs, _, _, rfl⟩ := h _ List.mem_cons_self
-    simp only [flat, List.flatMap_cons, value_ofStr]
-    intro hc
-    exact hs (List.append_eq_nil_iff.mp hc).1
+    obtain ⟨as, hne, hok, rfl⟩ := h _ List.mem_cons_self
+    rw [atomsOf_cons as hok gs] at ha
+    exact absurd (List.append_eq_nil_iff.mp ha).1 hne
 
-/-- **C02 for the model, all inputs** with default settings (and with or without capturing groups), for every
-non-empty list of test cases of which at least one is not the empty string, every segmentation meeting its
-contract, and every string `s` of scalar values: `RegExp::from` succeeds, the text `Display for RegExp`
-writes is accepted by `Regex::new`, and the compiled pattern matches `s` in full **iff `s` is one of the
-test cases and `s ≠ ""`** — nothing else is accepted, and exactly the empty test case is lost (known finding D1) -/
-theorem default_exact (cap : Bool) (env : Env) (ws : List Str) (st : Stages)
-    (h : regExpFrom (cfgPlain cap) env ws = .ok st) (hseg : ∀ w ∈ ws, SegOK env w) (hne : ∃ t ∈ ws, t ≠ [])
+/-- **C03 (and C02) for the model, all inputs** for every combination of the six class options, with or without
+capturing groups and everything else at its default: for every list of test cases containing a non-empty one, every
+segmentation meeting its contract and every string `s` of scalar values, `RegExp::from` succeeds, the printed text is
+accepted by `Regex::new`, and the compiled pattern matches `s` in full **iff `s` is obtained from some non-empty test
+case by replacing each code point independently by a member of what it was converted to** (the code point itself if
+it was not converted, any member of the shorthand class otherwise) -/
+theorem classes_exact (cfg : Config) (hp : PlainPrint cfg) (env : Env) (ws : List Str) (st : Stages)
+    (h : regExpFrom cfg env ws = .ok st) (hseg : ∀ w ∈ ws, SegOK env w) (hne : ∃ t ∈ ws, t ≠ [])
     (s : Str) (hs : ∀ c ∈ s, Scalar c) :
-    ∃ P, Spec.parse (fmtRegExp (cfgPlain cap) st.finalAst) = some (⟨false, false⟩, P) ∧
-      (Spec.fullMatch false P s = true ↔ (s ∈ ws ∧ s ≠ [])) := by
-  -- the stages of this run
-  have hci : (cfgPlain cap).ci = false := rfl
-  have hanch : ((cfgPlain cap).noStart && (cfgPlain cap).noEnd) = false := rfl
-  simp only [regExpFrom, hci, hanch, Bool.false_eq_true, ite_false] at h
+    ∃ P, Spec.parse (fmtRegExp cfg st.finalAst) = some (⟨false, false⟩, P) ∧
+      (Spec.fullMatch false P s = true ↔ ∃ t ∈ ws, t ≠ [] ∧ atomsDen (t.map (convAtom cfg)) s) := by
+  have hanch : (cfg.noStart && cfg.noEnd) = false := by simp [hp.noStart]
+  simp only [regExpFrom, hp.ci, hanch, Bool.false_eq_true, ite_false] at h
   have hseg' : ∀ w ∈ sortCases ws, SegOK env w := fun w hw => hseg w ((sortCases_mem' ws w).mp hw)
-  obtain ⟨hcl, hpl⟩ := clusters_plainBs cap env (sortCases ws) hseg'
-  generalize hcls : graphemeClusters (cfgPlain cap) env (sortCases ws) = cls at h hcl
+  obtain ⟨f, hcl, hpl⟩ := clusters_atoms cfg hp.rep env (sortCases ws) hseg'
+  generalize hcls : graphemeClusters cfg env (sortCases ws) = cls at h hcl
   have hclP : ∀ cl ∈ cls, PlainBs cl := by
     intro cl hc
     rw [hcl] at hc
@@ -49,8 +68,8 @@ theorem default_exact (cap : Bool) (env : Env) (ws : List Str) (st : Stages)
     exact (hpl w hw).1
   have hsimple : ∀ cl ∈ cls, ∀ g ∈ cl, g.Simple := by
     intro cl hc g hg
-    obtain ⟨x, _, _, _, rfl⟩ := hclP cl hc g hg
-    exact ofStr_simple x
+    obtain ⟨x, _, _, rfl⟩ := hclP cl hc g hg
+    exact ofStr_simple _
   obtain ⟨m, hm, hacc, hlab, hdfs, hN, hacyc⟩ := Grexv.min_struct cls hsimple (fun g => PlainBs [g])
     (fun cl hc g hg => by
       intro g' hg'
@@ -63,17 +82,20 @@ theorem default_exact (cap : Bool) (env : Env) (ws : List Str) (st : Stages)
   subst h
   simp only []
   -- the expression computed from the minimised automaton
-  have hwf := ofDfa_wf cap m hlab hdfs hacyc
-  have hlang := elimination_lang_acyclic (cfgPlain cap) m (labelsBs_plain m hlab) hN hdfs hacyc
+  have hof : Expr.ofDfa cfg m = Expr.ofDfa (cfgPlain cfg.cap) m := ofDfa_congr (c1 := cfg) (c2 := cfgPlain cfg.cap) hp.esc m
+  have hwf := ofDfa_wf cfg.cap m hlab hdfs hacyc
+  have hlang := elimination_lang_acyclic cfg m (labelsBs_plain m hlab) hN hdfs hacyc
   obtain ⟨t0, ht0, ht0ne⟩ := hne
-  have hwitness : clusterOfPieces (env.segOf t0) ∈ cls ∧ clusterOfPieces (env.segOf t0) ≠ [] := by
-    have hmem : t0 ∈ sortCases ws := (sortCases_mem' ws t0).mpr ht0
-    refine ⟨by rw [hcl]; exact List.mem_map.mpr ⟨t0, hmem, rfl⟩, ?_⟩
+  have hmem0 : t0 ∈ sortCases ws := (sortCases_mem' ws t0).mpr ht0
+  have hwitness : f t0 ∈ cls ∧ f t0 ≠ [] := by
+    refine ⟨by rw [hcl]; exact List.mem_map.mpr ⟨t0, hmem0, rfl⟩, ?_⟩
     intro hc
-    have := (hpl t0 hmem).2
+    have := (hpl t0 hmem0).2
     rw [hc] at this
-    exact ht0ne this.symm
-  have hlangE : ∀ w : Word, (Expr.ofDfa (cfgPlain cap) m).lang w ↔ (w ∈ cls ∧ w ≠ []) := by
+    cases t0 with
+    | nil => exact ht0ne rfl
+    | cons a r => simp [atomsOf] at this
+  have hlangE : ∀ w : Word, (Expr.ofDfa cfg m).lang w ↔ (w ∈ cls ∧ w ≠ []) := by
     intro w
     rw [ofDfa_eq]
     have hl := hlang w
@@ -84,39 +106,77 @@ theorem default_exact (cap : Bool) (env : Env) (ws : List Str) (st : Stages)
       exact hl
     · rename_i he
       exfalso
-      have := (hlang (clusterOfPieces (env.segOf t0)))
+      have := (hlang (f t0))
       rw [← accepts_iff_langFrom', hacc, he] at this
       exact this.mpr hwitness
-  obtain ⟨P, hparse, hmatch⟩ := printed_accepts cap _ hwf s hs
+  rw [fmtRegExp_plain_eq cfg hp, hof]
+  obtain ⟨P, hparse, hmatch⟩ := printed_accepts cfg.cap _ hwf s hs
   refine ⟨P, hparse, ?_⟩
   rw [hmatch]
-  simp only [Expr.strLang, hlangE]
+  simp only [Expr.strLang, ← hof, hlangE]
   constructor
-  · rintro ⟨w, ⟨hw, hwne⟩, rfl⟩
+  · rintro ⟨w, ⟨hw, hwne⟩, hd⟩
     rw [hcl] at hw
     obtain ⟨t, ht, rfl⟩ := List.mem_map.mp hw
-    have hp := hpl t ht
-    refine ⟨by rw [hp.2]; exact (sortCases_mem' ws t).mp ht, plainBs_flat_ne _ hp.1 hwne⟩
-  · rintro ⟨hsw, hsne⟩
-    have hmem : s ∈ sortCases ws := (sortCases_mem' ws s).mpr hsw
-    have hp := hpl s hmem
-    refine ⟨clusterOfPieces (env.segOf s), ⟨by rw [hcl]; exact List.mem_map.mpr ⟨s, hmem, rfl⟩, ?_⟩, hp.2.symm⟩
+    have hpt := hpl t ht
+    refine ⟨t, (sortCases_mem' ws t).mp ht, ?_, by rw [← hpt.2]; exact hd⟩
     intro hc
-    rw [hc] at hp
-    exact hsne hp.2.symm
+    subst hc
+    exact hwne (plainBs_atoms_nil _ hpt.1 (by rw [hpt.2]; rfl))
+  · rintro ⟨t, htw, htne, hd⟩
+    have hmem : t ∈ sortCases ws := (sortCases_mem' ws t).mpr htw
+    have hpt := hpl t hmem
+    refine ⟨f t, ⟨by rw [hcl]; exact List.mem_map.mpr ⟨t, hmem, rfl⟩, ?_⟩, by rw [hpt.2]; exact hd⟩
+    intro hc
+    have := hpt.2
+    rw [hc] at this
+    cases t with
+    | nil => exact htne rfl
+    | cons a r => simp [atomsOf] at this
 
+/-- without class options every code point stays itself -/
+theorem convAtom_plain (cap : Bool) (c : Nat) : convAtom (cfgPlain cap) c = Atom.chr c := by
+  have : convChar (cfgPlain cap) c = [c] := convChar_noflags (cfgPlain cap) ⟨rfl, rfl, rfl, rfl, rfl, rfl⟩ c
+  simp [convAtom, this]
+
+theorem atomsDen_chars (t s : Str) : atomsDen (t.map Atom.chr) s ↔ s = t := by
+  induction t generalizing s with
+  | nil => simp [atomsDen]
+  | cons c r ih =>
+    simp only [List.map_cons, atomsDen, atomDen]
+    constructor
+    · rintro ⟨x, r', rfl, rfl, h⟩; rw [(ih r').mp h]
+    · rintro rfl; exact ⟨c, r, rfl, rfl, (ih r).mpr rfl⟩
+
+/-- **C02 for the model, all inputs** (the case of `classes_exact` without class options) -/
+theorem default_exact (cap : Bool) (env : Env) (ws : List Str) (st : Stages)
+    (h : regExpFrom (cfgPlain cap) env ws = .ok st) (hseg : ∀ w ∈ ws, SegOK env w) (hne : ∃ t ∈ ws, t ≠ [])
+    (s : Str) (hs : ∀ c ∈ s, Scalar c) :
+    ∃ P, Spec.parse (fmtRegExp (cfgPlain cap) st.finalAst) = some (⟨false, false⟩, P) ∧
+      (Spec.fullMatch false P s = true ↔ (s ∈ ws ∧ s ≠ [])) := by
+  obtain ⟨P, hP, hm⟩ := classes_exact (cfgPlain cap) (plainPrint_cfgPlain cap) env ws st h hseg hne s hs
+  refine ⟨P, hP, ?_⟩
+  rw [hm]
+  have hmap : ∀ t : Str, t.map (convAtom (cfgPlain cap)) = t.map Atom.chr :=
+    fun t => List.map_congr_left (fun c _ => convAtom_plain cap c)
+  constructor
+  · rintro ⟨t, ht, htne, hd⟩
+    rw [hmap, atomsDen_chars] at hd
+    subst hd
+    exact ⟨ht, htne⟩
+  · rintro ⟨hsw, hsne⟩
+    exact ⟨s, hsw, hsne, by rw [hmap, atomsDen_chars]⟩
 
 /-- with plain settings the returned text is always accepted by the regex parser (no hypothesis on the test cases
 beyond the segmentation contract) -/
-theorem default_valid (cap : Bool) (env : Env) (ws : List Str) (st : Stages)
-    (h : regExpFrom (cfgPlain cap) env ws = .ok st) (hseg : ∀ w ∈ ws, SegOK env w) :
-    ∃ P, Spec.parse (fmtRegExp (cfgPlain cap) st.finalAst) = some (⟨false, false⟩, P) := by
-  have hci : (cfgPlain cap).ci = false := rfl
-  have hanch : ((cfgPlain cap).noStart && (cfgPlain cap).noEnd) = false := rfl
-  simp only [regExpFrom, hci, hanch, Bool.false_eq_true, ite_false] at h
+theorem classes_valid (cfg : Config) (hp : PlainPrint cfg) (env : Env) (ws : List Str) (st : Stages)
+    (h : regExpFrom cfg env ws = .ok st) (hseg : ∀ w ∈ ws, SegOK env w) :
+    ∃ P, Spec.parse (fmtRegExp cfg st.finalAst) = some (⟨false, false⟩, P) := by
+  have hanch : (cfg.noStart && cfg.noEnd) = false := by simp [hp.noStart]
+  simp only [regExpFrom, hp.ci, hanch, Bool.false_eq_true, ite_false] at h
   have hseg' : ∀ w ∈ sortCases ws, SegOK env w := fun w hw => hseg w ((sortCases_mem' ws w).mp hw)
-  obtain ⟨hcl, hpl⟩ := clusters_plainBs cap env (sortCases ws) hseg'
-  generalize hcls : graphemeClusters (cfgPlain cap) env (sortCases ws) = cls at h hcl
+  obtain ⟨f, hcl, hpl⟩ := clusters_atoms cfg hp.rep env (sortCases ws) hseg'
+  generalize hcls : graphemeClusters cfg env (sortCases ws) = cls at h hcl
   have hclP : ∀ cl ∈ cls, PlainBs cl := by
     intro cl hc
     rw [hcl] at hc
@@ -124,8 +184,8 @@ theorem default_valid (cap : Bool) (env : Env) (ws : List Str) (st : Stages)
     exact (hpl w hw).1
   have hsimple : ∀ cl ∈ cls, ∀ g ∈ cl, g.Simple := by
     intro cl hc g hg
-    obtain ⟨x, _, _, _, rfl⟩ := hclP cl hc g hg
-    exact ofStr_simple x
+    obtain ⟨x, _, _, rfl⟩ := hclP cl hc g hg
+    exact ofStr_simple _
   obtain ⟨m, hm, hacc, hlab, hdfs, hN, hacyc⟩ := Grexv.min_struct cls hsimple (fun g => PlainBs [g])
     (fun cl hc g hg => by
       intro g' hg'
@@ -136,6 +196,14 @@ theorem default_valid (cap : Bool) (env : Env) (ws : List Str) (st : Stages)
   simp only [] at h
   injection h with h
   subst h
-  exact ⟨_, parse_printed cap _ (ofDfa_wf cap m hlab hdfs hacyc)⟩
+  have hof : Expr.ofDfa cfg m = Expr.ofDfa (cfgPlain cfg.cap) m := ofDfa_congr (c1 := cfg) (c2 := cfgPlain cfg.cap) hp.esc m
+  simp only []
+  rw [fmtRegExp_plain_eq cfg hp, hof]
+  exact ⟨_, parse_printed cfg.cap _ (ofDfa_wf cfg.cap m hlab hdfs hacyc)⟩
+
+theorem default_valid (cap : Bool) (env : Env) (ws : List Str) (st : Stages)
+    (h : regExpFrom (cfgPlain cap) env ws = .ok st) (hseg : ∀ w ∈ ws, SegOK env w) :
+    ∃ P, Spec.parse (fmtRegExp (cfgPlain cap) st.finalAst) = some (⟨false, false⟩, P) :=
+  classes_valid (cfgPlain cap) (plainPrint_cfgPlain cap) env ws st h hseg
 
 end Grexv
